@@ -29,7 +29,7 @@ CLAIMED.update({
  "C04": e1("C04","6 (C04), 5 (E1)","After every successful request under both policies, through the policy's libmem allocator (public API only): told memory nodes == AssignedZone for every container memory pinning applies to; told nodes non-empty, existing and with memory (machine model); every assigned zone and every union of assigned zones holds no more than its capacity (computed from request sizes and the machine model); every container whose assigned zone changed during a request is told its new zone in that same reply.","memory pinning oracle over told view + allocator public API"),
  "C08": e1("C08","6 (C08), 5 (E1)","A checking decorator around the policies' cpuallocator.CPUAllocator interface field checks every AllocateCpus/ReleaseCpus call made by simulated histories of both policies on generated topologies (hybrid, clustered, cache-group, cpufreq/EPP variants): exact count, subset, set bookkeeping, failure leaves the set unchanged; each call is repeated on copies of its arguments under two other seeded map-iteration orders and must give the same result (the allocator's only nondeterminism source). In addition a long-lived monitored allocator on the discovered system is driven with seeded direct calls (random subsets of the online CPUs or what the previous call left, counts 0..|set|+1, all priorities, all 16 flag combinations), since the property quantifies over all candidate sets.","CPU allocator contract monitor + map-order determinism re-execution"),
  "C09": e1("C09","6 (C09), 5 (E1)","After every request a stopped container must hold no grant, balloon membership or memory allocation; at the end of every history everything is stopped and removed through the real handlers and the policy state is compared with a fresh twin instance given the last accepted configuration on the same machine (topology zones, pool free == total supply and zero counters; for balloons: the same balloons by type, size and membership and the same number of idle CPUs - which CPUs a surviving pre-created balloon holds and its instance number are not compared; no memory requests, empty cache).","leak oracle: stopped-holds-nothing + teardown vs fresh twin instance"),
- "C11": e1("C11","6 (C11), 5 (E1)","Restart at request boundaries on the persisted state directory with containers vanishing meanwhile, then Synchronize with the runtime's lists: nothing may be held by containers the runtime does not report created/running, the cache is purged of unknown pods/containers, every reported created/running container holds an allocation whenever that same set held allocations simultaneously before (and the configuration is unchanged), the invariants of C01-C04 hold and told view == cache view. Mid-request crash points are covered for the cache by C10 only; here restarts are at request boundaries.","restart + Synchronize convergence oracle"),
+ "C11": e1("C11","6 (C11), 5 (E1)","Restart at request boundaries on the persisted state directory with containers vanishing meanwhile, then Synchronize with the runtime's lists: nothing may be held by containers the runtime does not report created/running, the cache is purged of unknown pods/containers, every reported created/running container holds an allocation whenever that same set held allocations simultaneously before (and the configuration is unchanged), the invariants of C01-C04 hold and told view == cache view. Restarts are clean ones at request boundaries and kills of the plugin at a seeded file-system operation in the middle of a lifecycle request (the runtime carries on without the answer); torn writes are C10's subject.","restart + Synchronize convergence oracle"),
  "C13": e1("C13","6 (C13), 5 (E1)","Configuration updates at any request boundary through resmgr.updateConfig (real apply/revert path): identical updates must change no told view or zone; rejected updates must leave told views and zones unchanged and, differentially, every later request identical to a run that never received them; after accepted updates every created/running container holds an allocation, stopped ones none, C01-C04 hold and told == cache. Several genuine atomicity/idempotence defects are recorded as known findings.","reconfiguration oracle incl. differential twin without the rejected update"),
  "C14": e1("C14","6 (C14), 5 (E1, E5)","Out-of-protocol NRI event sequences (duplicates, reordering, unknown or forgotten ids, containers of unknown pods, absent optional sub-messages) and malformed annotation values against the real handlers of both resource-policy plugins, each call under recover with the logger's Fatal exit trapped through klog.OsExit; after every refused request a canonical pod+container life cycle must be served. The memory-qos, memtierd and sgx-epc handlers are driven by the annsim engine (same check).","panic/fatal-exit trap around every handler under NRI fault injection"),
  "C16": e1("C16","6 (C16), 5 (E1)","For every generated machine the discovered sysfs.System (CPU ids, package/die/node/core, thread siblings, online/isolated, node CPU lists, memory sizes, distances, cache sharing) must equal the model that was rendered, and the topology-aware pool snapshot must be a single tree with disjoint siblings, parents containing children, root == available CPUs, isolated/reserved/sharable a partition, all memory at the root, child memory within parent memory, CPU-less PMEM/HBM attached exactly to pools holding a closest CPU-bearing DRAM node. Configuration sampling evaluated at every start and accepted reconfiguration of the simulated histories.","discovery-vs-model and pool-tree well-formedness oracle at every start/reconfigure"),
